@@ -1,4 +1,5 @@
 import ActixNet.Lemmas.SrvWake
+import ActixNet.Lemmas.SrvFuel
 /-!
 # C03 — back-pressure releases: spare worker capacity is always used (no lost wake-up)
 
@@ -151,8 +152,8 @@ theorem accept_loop_stops_only_when_drained_or_saturated (cfg : Cfg) :
 
 
 /-- **C03, end to end**: in every reachable state of a fault-free history (all schedules at every
-yield point, every limit ≥ 1, 1..512 workers) that is at an iteration boundary, not faulted and not
-stopped: if some worker has spare capacity and no wake-up for it is still in flight, then every
+yield point, every limit ≥ 1, 1..512 workers) that is at an iteration boundary and not stopped (the
+accept thread cannot have failed: `run_fault_none`): if some worker has spare capacity and no wake-up for it is still in flight, then every
 listener that is in the poll set and not backing off has **nothing waiting unless a readiness event
 for it is pending** (which the next iteration consumes by accepting from it).  So a waiting
 connection is never stranded behind the accept thread's availability bookkeeping; while paused
@@ -160,7 +161,7 @@ connection is never stranded behind the accept thread's availability bookkeeping
 set by design.  Assumption `OpsOk`: each `poll` is given at least the listeners epoll reports ready. -/
 theorem no_lost_wakeup (cfg : Cfg) (ok : CfgOk cfg) (kinds : List Kind) (ops : List Op)
     (hf : ∀ op ∈ ops, op.faultFree) (ho : OpsOk cfg (init cfg kinds) ops)
-    (hnf : (run cfg (init cfg kinds) ops).fault = none) (hwb : (run cfg (init cfg kinds) ops).spuriousWB = false)
+    (hwb : (run cfg (init cfg kinds) ops).spuriousWB = false)
     (hne : (run cfg (init cfg kinds) ops).exited = false)
     (w : Nat) (hw : w < cfg.nIdx) (hspare : inProgress (run cfg (init cfg kinds) ops) w < cfg.limit)
     (htok : tokOf (run cfg (init cfg kinds) ops).wk (run cfg (init cfg kinds) ops).wq w = 0)
@@ -179,7 +180,7 @@ theorem no_lost_wakeup (cfg : Cfg) (ok : CfgOk cfg) (kinds : List Kind) (ops : L
   have hany : anyAvail cfg (run cfg (init cfg kinds) ops) = true := by
     unfold anyAvail; exact List.any_eq_true.mpr ⟨w, List.mem_range.mpr hw, hav⟩
   -- … so no registered, event-less, non-backing-off listener can have anything waiting
-  have hj := (run_JInv cfg ops _ (init_JInv cfg kinds) ho).j hnf hwb hne
+  have hj := (run_JInv cfg ops _ (init_JInv cfg kinds) ho).j (run_fault_none ok kinds ops) hwb hne
   cases hb : ((run cfg (init cfg kinds) ops).lst l).backlog with
   | nil => rfl
   | cons c b =>
